@@ -805,13 +805,23 @@ def case_giant_residue(rng, ctx):
     a = struc.AtomArray(n)
     a.coord = rng.uniform(-90, 90, size=(n, 3)).astype(np.float32)
     a.chain_id[:] = "A"
-    a.res_id[:] = 1
-    a.res_name[:] = "BIG"
-    a.atom_name = np.array(["Z" + np.base_repr(i, 36) for i in range(n)])
     a.element[:] = "C"
     lo = max(n - 7300, 0)
-    pairs = np.concatenate([rng.integers(lo, n, size=(120, 2)), rng.integers(0, n, size=(60, 2)),
-                            np.array([[n - 1, n - 2], [0, n - 1], [32766 % n, 32767 % n]])])
+    if ctx.index % 1000 == 750:
+        # the same number of atoms in two-atom residues, a few dozen bonds between residues (written as struct_conn rows
+        # and matched against all atoms when read)
+        a.res_id = np.arange(n) // 2 + 1
+        a.res_name[:] = "DUO"
+        a.atom_name = np.where(np.arange(n) % 2 == 0, "X1", "X2")
+        pairs = np.concatenate([rng.integers(lo, n, size=(25, 2)), rng.integers(0, n, size=(15, 2)),
+                                np.array([[20, n - 10], [1, 32768 % n], [32767 % n, 32770 % n]])])
+        pairs = pairs[pairs[:, 0] // 2 != pairs[:, 1] // 2]
+    else:
+        a.res_id[:] = 1
+        a.res_name[:] = "BIG"
+        a.atom_name = np.array(["Z" + np.base_repr(i, 36) for i in range(n)])
+        pairs = np.concatenate([rng.integers(lo, n, size=(120, 2)), rng.integers(0, n, size=(60, 2)),
+                                np.array([[n - 1, n - 2], [0, n - 1], [32766 % n, 32767 % n]])])
     pairs = pairs[pairs[:, 0] != pairs[:, 1]]
     arr = np.concatenate([pairs, rng.integers(1, 4, size=(len(pairs), 1))], axis=1).astype(np.int64)
     a.bonds = struc.BondList(n, arr)
@@ -831,17 +841,59 @@ def case_giant_residue(rng, ctx):
     got = pdbx.get_structure(g, model=1, include_bonds=True)
     ctx.oracle("roundtrip_fields")
     if got.array_length() != n or not np.array_equal(got.atom_name, a.atom_name) or not np.array_equal(got.coord, a.coord):
-        ctx.fail("roundtrip_fields", "%s, one residue of %d atoms: atoms/coordinates differ after the round trip" % (fmt, n))
+        ctx.fail("roundtrip_fields", "%s, %d atoms in %d residue(s): atoms/coordinates differ after the round trip" % (fmt, n, len(set(a.res_id.tolist()))))
     ctx.oracle("roundtrip_bonds")
     have = {(int(i), int(j), int(t)) for i, j, t in got.bonds.as_array()} if got.bonds is not None else None
     if have != want:
         miss = sorted(want - (have or set()))[:4]
         extra = sorted((have or set()) - want)[:4]
-        ctx.fail("roundtrip_bonds", "%s, one residue of %d atoms: typed bond set differs: missing %s, unexpected %s" % (fmt, n, miss, extra))
+        ctx.fail("roundtrip_bonds", "%s, %d atoms in %d residue(s): typed bond set differs: missing %s, unexpected %s" % (fmt, n, len(set(a.res_id.tolist())), miss, extra))
     ctx.state(("giant_residue", n, fmt))
 
 
+def case_many_models(rng, ctx):
+    """A stack with more models than 8 bits count (an NMR ensemble / trajectory excerpt)."""
+    m = int(rng.choice([255, 256, 257, 300]))
+    n = int(rng.integers(1, 5))
+    st = struc.AtomArrayStack(m, n)
+    st.coord = rng.uniform(-50, 50, size=(m, n, 3)).astype(np.float32)
+    st.chain_id[:] = "A"
+    st.res_id = np.arange(1, n + 1)
+    st.res_name[:] = "GLY"
+    st.atom_name[:] = "CA"
+    st.element[:] = "C"
+    fmt = str(rng.choice(["cif", "bcif"]))
+    ctx.log({"many_models": m, "atoms": n, "format": fmt})
+    ctx.op("many_models_" + fmt)
+    ctx.mark_nontrivial()
+    ctx.state(("many_models", m, fmt))
+    Fcls = pdbx.CIFFile if fmt == "cif" else pdbx.BinaryCIFFile
+    f = Fcls()
+    pdbx.set_structure(f, st, data_block="blk")
+    if fmt == "cif":
+        g = pdbx.CIFFile.deserialize(f.serialize())
+    else:
+        buf = io.BytesIO(); f.write(buf); buf.seek(0)
+        g = pdbx.BinaryCIFFile.read(buf)
+    ctx.oracle("model_rows")
+    if pdbx.get_model_count(g) != m:
+        ctx.fail("model_rows", "%s: get_model_count() = %r for a stack of %d models" % (fmt, pdbx.get_model_count(g), m))
+    got = pdbx.get_structure(g, model=None)
+    if not isinstance(got, struc.AtomArrayStack) or got.coord.shape != st.coord.shape or not np.array_equal(got.coord, st.coord):
+        ctx.fail("model_rows", "%s: a stack of %d models x %d atoms is read back as %s %s or with other coordinates"
+                 % (fmt, m, n, type(got).__name__, getattr(getattr(got, "coord", None), "shape", None)))
+    for k_ in sorted({1, min(m, 255), min(m, 256), m, int(rng.integers(1, m + 1))}):
+        one = pdbx.get_structure(g, model=k_)
+        if not np.array_equal(one.coord, st.coord[k_ - 1]):
+            ctx.fail("model_rows", "%s: get_structure(model=%d) of %d models returns other coordinates than model %d" % (fmt, k_, m, k_))
+    last = pdbx.get_structure(g, model=-1)
+    if not np.array_equal(last.coord, st.coord[-1]):
+        ctx.fail("model_rows", "%s: get_structure(model=-1) of %d models is not the last model" % (fmt, m))
+
+
 def run_case(stratum, rng, ctx):
+    if stratum == "model_select" and ctx.index % 100 == 99:
+        return case_many_models(rng, ctx)
     if stratum == "roundtrip":
         return case_roundtrip(rng, ctx, False)
     if stratum == "roundtrip_bonds":
